@@ -138,3 +138,108 @@ Example C15_persisted_example :
   DV.Model.Catalogue.versions (DV.Model.Store.register DV.Model.Catalogue.cat0 id)
   = [Some ([116], [97], [115], [118], (1, 2, 0)%Z, (1, 0, 0)%Z, (3, 0, 1)%Z)].
 Proof. vm_compute. reflexivity. Qed.
+
+(* ---- end to end on NAMES: from the identities registered in the catalogue
+   (what workers record before they run: pl.version.record -> shelve.update =
+   Store.register) and the engine given by its names and versions, through
+   shelve.versions() (Catalogue.versions + its collation loop), pl.version.current
+   and the GENERATED name-level part of schedule.build (Gen/BuildNamesGen.v: _diff
+   on names, the 'task.alg' prefix cut at the dots, the tag test of Node.locate),
+   to the todo sets and the queue (Model/BuildNames.v: build_names).
+   Names are lists of code points; `plain` = no ':' (catalogue separator),
+   `nodot` = no '.' (compliance rule 9). ---- *)
+From DV Require Gen.BuildNamesGen Model.BuildNames Proofs.BuildNamesProofs.
+Module Names.
+Import DV.Model.Catalogue DV.Model.Store DV.Gen.BuildNamesGen DV.Model.BuildNames.
+Import DV.Proofs.CatalogueProofs DV.Proofs.BuildNamesProofs.
+
+(* the meaning of "changed" on names: some version of the algorithm was never
+   registered for exactly its (task, algorithm[, state vector[, value]]) name; a
+   state vector without values has no version of its own (current() skips it) *)
+Theorem C15_alg_changed_def : forall ids tk a,
+  alg_changed ids tk a <->
+  (~ exists id, In id ids /\ d_task id = t_name tk /\ d_alg id = a_name a /\ d_aver id = a_ver a) \/
+  (exists s, In s (a_svs a) /\ sv_vals s <> [] /\
+     ~ exists id, In id ids /\ d_task id = t_name tk /\ d_alg id = a_name a /\
+                  d_sv id = sv_name s /\ d_sver id = sv_ver s) \/
+  (exists s n v, In s (a_svs a) /\ In (n, v) (sv_vals s) /\
+     ~ exists id, In id ids /\ d_task id = t_name tk /\ d_alg id = a_name a /\
+                  d_sv id = sv_name s /\ d_vn id = n /\ d_vver id = v).
+Proof. intros. reflexivity. Qed.
+Print Assumptions C15_alg_changed_def.
+
+(* for every list of registered identities (names without ':' and '.'), every
+   engine without duplicate names (names without '.'), every graph c / tags (tag of
+   node y = nth y tags), any previous state and any iteration order of python's set:
+   versions() does not raise, and node y is pending (for exactly every known target,
+   the all-targets marker for analyses) and queued IFF it is the node of an algorithm
+   of the engine that changed in the sense above.  An algorithm that was never
+   registered counts as changed (first disjunct); an algorithm whose name merely
+   extends or is a prefix of a changed one is a different (task, algorithm) name *)
+Theorem C15_end_to_end : forall ids e c tags hint s,
+  Forall ok_ident ids -> Forall dotfree_ident ids -> wf_engine e ->
+  exists s', build_names c tags e (registered ids) hint s = Some s' /\
+    (forall y t, In t (todo (getn (ns s') y)) <->
+       (exists tk a, In tk e /\ In a (t_algs tk) /\
+                     nth_error tags y = Some (dots [t_name tk; a_name a]) /\ alg_changed ids tk a) /\
+       y < nnodes c /\ (if asp c y then t = ALL else In t (gtargets c))) /\
+    (forall y, doing (getn (ns s') y) = [] /\ do_ (getn (ns s') y) = []) /\
+    (forall z, In z (que s') <->
+       (exists tk a, In tk e /\ In a (t_algs tk) /\
+                     nth_error tags z = Some (dots [t_name tk; a_name a]) /\ alg_changed ids tk a) /\
+       z < nnodes c).
+Proof. exact BN_end_to_end. Qed.
+Print Assumptions C15_end_to_end.
+
+(* whether an algorithm changed depends only on the registrations made under its
+   own (task, algorithm) name: registrations under net.fit2 / cal.fit / cal.fitter
+   never affect net.fit *)
+Theorem C15_changed_depends_on_own_name : forall ids ids' tk a,
+  (forall id, d_task id = t_name tk -> d_alg id = a_name a -> (In id ids <-> In id ids')) ->
+  (alg_changed ids tk a <-> alg_changed ids' tk a).
+Proof. exact BN_alg_changed_own. Qed.
+Print Assumptions C15_changed_depends_on_own_name.
+
+(* after every algorithm of the engine recorded its identities (every algorithm
+   has a state vector with a value) a (re)load reschedules nothing ... *)
+Theorem C15_register_then_unchanged : forall e c tags hint s,
+  wf_engine e -> plain_engine e -> populated e ->
+  exists s', build_names c tags e (registered (record_all e)) hint s = Some s' /\
+    que s' = [] /\ forall y, todo (getn (ns s') y) = [].
+Proof. exact BN_register_then_unchanged. Qed.
+Print Assumptions C15_register_then_unchanged.
+
+(* ... and a software change e -> e' that touches one algorithm (tk0, a0) only,
+   giving it some version e never registered for that name (algorithm, state
+   vector or value level), reschedules exactly the node of that algorithm *)
+Theorem C15_bump_reschedules_exactly_owner : forall e e' tk0 a0 c tags hint s,
+  wf_engine e -> plain_engine e -> populated e -> wf_engine e' ->
+  In tk0 e' -> In a0 (t_algs tk0) ->
+  (forall tk' a', In tk' e' -> In a' (t_algs tk') ->
+     (tk' = tk0 /\ a' = a0) \/ exists tk, In tk e /\ t_name tk = t_name tk' /\ In a' (t_algs tk)) ->
+  alg_changed (record_all e) tk0 a0 ->
+  exists s', build_names c tags e' (registered (record_all e)) hint s = Some s' /\
+    (forall z, In z (que s') <-> nth_error tags z = Some (dots [t_name tk0; a_name a0]) /\ z < nnodes c) /\
+    (forall y t, In t (todo (getn (ns s') y)) <->
+       nth_error tags y = Some (dots [t_name tk0; a_name a0]) /\ y < nnodes c /\
+       (if asp c y then t = ALL else In t (gtargets c))).
+Proof. exact BN_bump_reschedules_owner. Qed.
+Print Assumptions C15_bump_reschedules_exactly_owner.
+
+(* non-vacuity, with confusable names net.fit / net.fit2 / cal.fit / cal.fitter
+   (nodes 2 / 3 / 0 / 1): the hypotheses hold for the example engine; the generated
+   prefix function cuts at the dots; everything registered -> nothing changes; the
+   state vector of net.fit2 bumped -> node 3 only, not net.fit *)
+Example C15_names_example_wf : forall b,
+  wf_engine (ex_engine b) /\ plain_engine (ex_engine b) /\ populated (ex_engine b).
+Proof. exact BN_ex_wf. Qed.
+
+Example C15_names_example :
+  alg_of (dots [s_net; s_fit2; s_sv; s_v]) = dots [s_net; s_fit2]
+  /\ alg_of (dots [s_net; s_fit]) = dots [s_net; s_fit]
+  /\ option_map (nodes_changed ex_tags (ex_engine (1, 0, 0)%Z))
+                (persisted (registered (record_all (ex_engine (1, 0, 0)%Z)))) = Some []
+  /\ option_map (nodes_changed ex_tags (ex_engine (1, 1, 0)%Z))
+                (persisted (registered (record_all (ex_engine (1, 0, 0)%Z)))) = Some [3].
+Proof. vm_compute. repeat split; reflexivity. Qed.
+End Names.
